@@ -163,6 +163,15 @@ def run_one(src, P):
             inits[0].const_value = ir.ExternalTensor("weights.bin", 16, t.nbytes, t.dtype, shape=t.shape, name=t.name, base_dir="/nonexistent")
         obs["tensor_impl"] = ["", "proto-backed", "lazy", "external"][timpl]
     m.ir_version = operator.index(P["irv"])
+    alias = operator.index(P["alias"])
+    if alias and "" in m.graph.opset_imports:
+        v0 = m.graph.opset_imports[""]
+        if alias == 1:        # the default domain spelled 'ai.onnx'
+            del m.graph.opset_imports[""]
+            m.graph.opset_imports["ai.onnx"] = v0
+        else:                 # both spellings, different versions
+            m.graph.opset_imports["ai.onnx"] = v0 - 1
+        obs["opset_alias"] = dict(m.graph.opset_imports)
     if operator.index(P["meta"]):
         m.doc_string = "model doc"
         m.metadata_props["mk"] = "mv"
@@ -203,18 +212,18 @@ def run_one(src, P):
     return (not problems), dict(problems=problems, **obs)
 
 
-RANGES = dict(op=(-1, len(EDIT_OPS) - 1), gi=(0, 1), a=(0, 5), b=(-1, 2), c=(-1, 1), d=(0, 12), share=(-1, 3), timpl=(0, 3), irv=(3, 13), meta=(0, 1))
+RANGES = dict(op=(-1, len(EDIT_OPS) - 1), gi=(0, 1), a=(0, 5), b=(-1, 2), c=(-1, 1), d=(0, 12), share=(-1, 3), timpl=(0, 3), irv=(3, 13), meta=(0, 1), alias=(0, 2))
 
 
 def make_case(tier, key):
     src, group = key
     ranges = dict(RANGES)
     if group == "edits":
-        ranges.update(share=(-1, -1), timpl=(0, 0), irv=(10, 10), meta=(0, 0), op=(0, len(EDIT_OPS) - 1))
+        ranges.update(share=(-1, -1), timpl=(0, 0), irv=(10, 10), meta=(0, 0), alias=(0, 0), op=(0, len(EDIT_OPS) - 1))
     elif group == "variations":
         ranges.update(op=(-1, -1), gi=(0, 0), a=(0, 0), b=(0, 0), c=(0, 0), d=(0, 0))
     else:  # one edit then a shared tensor / other implementation
-        ranges.update(irv=(8, 11), meta=(0, 0), a=(0, 3), b=(0, 1), c=(0, 1), d=(0, 3), share=(-1, 1), timpl=(0, 1))
+        ranges.update(irv=(8, 11), meta=(0, 0), alias=(0, 0), a=(0, 3), b=(0, 1), c=(0, 1), d=(0, 3), share=(-1, 1), timpl=(0, 1))
 
     def body(P):
         return run_one(src, P)
